@@ -20,6 +20,7 @@ import (
 	"net/url"
 	"os"
 	"strings"
+	"sync"
 	"time"
 
 	"github.com/rs/zerolog"
@@ -619,8 +620,54 @@ func factory(name string) *explore.Scenario {
 		Setup: func() { zerolog.SetGlobalLevel(zerolog.TraceLevel) }}
 }
 
+// racePass: concurrent requests on real goroutines under -race.
+func racePass() {
+	runs := 0
+	for _, sel := range [][]string{{"URL", "Method", "RequestID"}, {"RemoteAddr", "UserAgent", "CustomHeader"}, {"ACCESS"}} {
+		for rep := 0; rep < 200; rep++ {
+			var mu sync.Mutex
+			w := &lockedLines{mu: &mu}
+			base := zerolog.New(w).With().Str("app", "base").Logger()
+			h := chain(base, pick(sel), false, func(r *http.Request) string { return r.Header.Get("X-Tag") })
+			if sel[0] == "ACCESS" {
+				h = accessChain(base, false)
+			}
+			var wg sync.WaitGroup
+			for i := 0; i < 4; i++ {
+				i := i
+				wg.Add(1)
+				go func() {
+					defer wg.Done()
+					req := reqFor(i)
+					req.Header.Set("X-Tag", fmt.Sprintf("req%d", i))
+					h.ServeHTTP(&nullRW{h: http.Header{}}, req)
+				}()
+			}
+			wg.Wait()
+			runs++
+		}
+	}
+	fmt.Printf("racepass runs=%d\n", runs)
+	os.Exit(0)
+}
+
+type lockedLines struct {
+	mu *sync.Mutex
+	n  int
+}
+
+func (l *lockedLines) Write(p []byte) (int, error) {
+	l.mu.Lock()
+	l.n++
+	l.mu.Unlock()
+	return len(p), nil
+}
+
 func main() {
 	drv.WorkerMain(factory)
+	if os.Getenv("VERIF_RACEPASS") != "" {
+		racePass()
+	}
 	tierF := flag.String("tier", "", "")
 	flag.String("prop", "C18", "")
 	flag.Parse()
@@ -672,5 +719,12 @@ func main() {
 	r.Count("concurrent_executions", execs)
 	out := drv.Classify("C18", factory, stats, 20000)
 	r.AddExternal(out.Violations)
+	runs, races, note, report, err := drv.RacePass("VERIF_RACE_BIN", "VERIF_RACEPASS")
+	if err != nil {
+		fmt.Println("INFRA:", err)
+		os.Exit(2)
+	}
+	r.Extra["race_pass"] = map[string]interface{}{"note": note, "runs": runs, "races": races, "technique": "free-running goroutines under the Go race detector; dynamic analysis, not part of the exhaustive claim"}
+	r.AddExternal(drv.ReportRace("C18", races, report))
 	r.Exit()
 }
